@@ -2029,6 +2029,9 @@ def fallback(E, ci, argv, fr):
                 return E.call_fn(cands[0], argv, ci)
         if isinstance(v, Obj) and hasattr(v, 'methods') and ci.method in v.methods:
             return v.methods[ci.method](E, ci, *argv)
+    if ci.kind == 'trait' and ci.trait_last == 'Digest' and ci.method == 'new':
+        from .models_env import hasher_type
+        return Obj('Hasher', alg=hasher_type(E, ci, fr), data=[])
     if ci.kind == 'trait' and ci.trait_last in ('Fn', 'FnMut', 'FnOnce'):
         args = argv[1].fields if len(argv) > 1 and isinstance(argv[1], Agg) else []
         f = argv[0]
@@ -2052,3 +2055,23 @@ def _ptr_eq(E, ci, a, b):
 @model('vec::from_elem')
 def _from_elem(E, ci, x, n):
     return VecV([clone_val(E, x) for _ in range(E.concretize(n))], 'Vec')
+
+
+@model('Option::is_some_and')
+def _is_some_and(E, ci, o, f):
+    return o.variant == 1 and E.branch(E.call_value(f, [o.fields[0]]))
+
+
+@model('Option::is_none_or')
+def _is_none_or(E, ci, o, f):
+    return o.variant == 0 or E.branch(E.call_value(f, [o.fields[0]]))
+
+
+@model('Result::is_ok_and')
+def _is_ok_and(E, ci, o, f):
+    return o.variant == 0 and E.branch(E.call_value(f, [o.fields[0]]))
+
+
+@model('Result::is_err_and')
+def _is_err_and(E, ci, o, f):
+    return o.variant == 1 and E.branch(E.call_value(f, [o.fields[0]]))
